@@ -104,7 +104,8 @@ Inductive comp :=
 | KTruncU (agg : bool) (n : nat)
 | KTruncS (agg : bool) (n : nat)
 | KPolymorph (poly : hpoly) (poly_vars : list label) (red : list (label * label * label)) (keep discard : bool)
-| KScale (orig : hpoly) (scalar : option Qc) (lr pr : Qc * Qc) (ign : list (list label)) (sent : hpoly)
+| KScale (orig : hpoly) (scalar : option Qc) (bias_range : prange) (poly_range : option prange)
+         (ign : list (list label)) (sent : hpoly)
 | KFixed (orig : hpoly) (fs : list (label * Qc)) (sent : hpoly)
 | KTrack (n : nat) (count : nat) (given tracked : poly) (tracked_out : result).
 
@@ -153,7 +154,9 @@ Definition check_comp (k : comp) (child res : result) : bool :=
       (length (r_rows res) =? length (r_energies res))%nat &&
       sub_multiset (combine (r_energies res) (r_rows res)) (combine (r_energies child) (r_rows child))
   | KPolymorph poly pv red keep discard => res_equiv (polymorph poly pv red keep discard child) res
-  | KScale orig scalar lr pr ign sent =>
+  | KScale orig scalar br prr ign sent =>
+      let '(lr, pr) := polyscale_ranges br prr in
+      dictlike_b orig &&
       let '(q, k) := polyscale_problem scalar lr pr ign orig in
       hpoly_eqb q sent && res_equiv (polyscale_result orig k ign child) res
   | KFixed orig fs sent =>
